@@ -21,3 +21,23 @@ func init() {
 		os.Exit(0)
 	}
 }
+
+func init() {
+	if n := os.Getenv("ARCHECHECK_CALLS"); n != "" {
+		p, err := Load(Config{GOARCH: "amd64"})
+		if err != nil {
+			panic(err)
+		}
+		fn := p.Fn(n)
+		fmt.Println("fn", fn, "synthetic", fn.Synthetic)
+		for _, c := range callsIn(fn) {
+			sc := c.Common().StaticCallee()
+			fmt.Printf("  call %v static=%v", c, sc)
+			if sc != nil {
+				fmt.Printf(" name=%s origin=%v inFuncs=%v", p.FuncName(sc), sc.Origin(), p.ByName[p.FuncName(sc)] == sc)
+			}
+			fmt.Println()
+		}
+		os.Exit(0)
+	}
+}
